@@ -12613,7 +12613,8 @@ func (p *PathAttributeCommunities) DecodeFromBytes(data []byte, options ...*Mars
 	if err != nil {
 		return err
 	}
-	if p.Length%4 != 0 {
+	// RFC 7606 Section 7.8: a non-zero multiple of 4
+	if p.Length == 0 || p.Length%4 != 0 {
 		eCode := uint8(BGP_ERROR_UPDATE_MESSAGE_ERROR)
 		eSubCode := uint8(BGP_ERROR_SUB_ATTRIBUTE_LENGTH_ERROR)
 		return NewMessageError(eCode, eSubCode, nil, "communities length isn't correct")
@@ -12788,7 +12789,8 @@ func (p *PathAttributeClusterList) DecodeFromBytes(data []byte, options ...*Mars
 	if err != nil {
 		return err
 	}
-	if p.Length%4 != 0 {
+	// RFC 7606 Section 7.10: a non-zero multiple of 4
+	if p.Length == 0 || p.Length%4 != 0 {
 		eCode := uint8(BGP_ERROR_UPDATE_MESSAGE_ERROR)
 		eSubCode := uint8(BGP_ERROR_SUB_ATTRIBUTE_LENGTH_ERROR)
 		return NewMessageError(eCode, eSubCode, nil, "clusterlist length isn't correct")
@@ -14937,7 +14939,8 @@ func (p *PathAttributeExtendedCommunities) DecodeFromBytes(data []byte, options 
 	if err != nil {
 		return err
 	}
-	if p.Length%ExtendedCommunityLen != 0 {
+	// RFC 7606 Section 7.14: a non-zero multiple of 8
+	if p.Length == 0 || p.Length%ExtendedCommunityLen != 0 {
 		eCode := uint8(BGP_ERROR_UPDATE_MESSAGE_ERROR)
 		eSubCode := uint8(BGP_ERROR_SUB_ATTRIBUTE_LENGTH_ERROR)
 		return NewMessageError(eCode, eSubCode, nil, "extendedcommunities length isn't correct")
@@ -16285,7 +16288,8 @@ func (p *PathAttributeLargeCommunities) DecodeFromBytes(data []byte, options ...
 	if err != nil {
 		return err
 	}
-	if p.Length%12 != 0 {
+	// RFC 8092 Section 5: a non-zero multiple of 12
+	if p.Length == 0 || p.Length%12 != 0 {
 		eCode := uint8(BGP_ERROR_UPDATE_MESSAGE_ERROR)
 		eSubCode := uint8(BGP_ERROR_SUB_ATTRIBUTE_LENGTH_ERROR)
 		return NewMessageError(eCode, eSubCode, nil, "large communities length isn't correct")
